@@ -2,3 +2,287 @@
 From BVA Require Import Base.Prelude Base.Result Base.Words Base.Limbs.
 From BVA Require Import Model.Core Model.Ops Model.Arith Model.Conv Model.Auto Spec.Spec Proofs.Common.
 From Coq Require Import ZifyBool ZifyN ZifyNat.
+
+(* Schoolbook multiplication truncated to `len` words (mul_row / mul_rows of Model/Arith.v):
+   the u128 widening multiply agrees with the generic one, the running carry `cadd(..) + hi`
+   never overflows a word (so Debug and Release agree and nothing panics), and the rows compute
+   the product modulo 2^(w*len).
+   Note: in mul_rows_inv plain `lia` diverges when both the fold_left equation and the `mod`
+   invariant are in the context; every `lia` there is preceded by a `clear -`. *)
+
+(* ------------------------------------------------------------------ numeric helpers *)
+
+Lemma concat_mod y B C T : y < B -> 0 < C -> (y + B * T) mod (B * C) = y + B * (T mod C).
+Proof.
+  intros Hy HC.
+  assert (0 < B) as HB by lia.
+  pose proof (N.div_mod' T C) as E. pose proof (N.mod_lt T C ltac:(lia)) as Hm.
+  symmetry. apply (N.mod_unique _ _ (T / C)).
+  - assert (B * (T mod C + 1) <= B * C) as H by (apply N.mul_le_mono_l; lia). lia.
+  - rewrite E at 1. lia.
+Qed.
+
+Lemma mod_split x B C : 0 < B -> 0 < C -> x mod (B * C) = x mod B + B * ((x / B) mod C).
+Proof. intros HB HC. apply N.mod_mul_r; lia. Qed.
+
+Lemma row_acc M Bt C X ai R :
+  M = Bt * C -> 0 < Bt -> 0 < C ->
+  (X mod M + Bt * (ai * (R mod C))) mod M = (X + Bt * ai * R) mod M.
+Proof.
+  intros -> HB HC.
+  rewrite N.add_mod_idemp_l by lia.
+  pose proof (N.div_mod' R C) as E.
+  replace (X + Bt * ai * R) with (X + Bt * (ai * (R mod C)) + (ai * (R / C)) * (Bt * C)).
+  - rewrite N.mod_add by lia. reflexivity.
+  - rewrite E at 3. lia.
+Qed.
+
+(* ------------------------------------------------------------------ wmul *)
+
+Lemma wmul128_eq a b : a < 2 ^ 128 -> b < 2 ^ 128 -> wmul128 a b = wmul_gen 128 a b.
+Proof.
+  intros Ha Hb. unfold wmul128, wmul_gen. cbv zeta.
+  rewrite pow2_eq, <- ones_eq, !N.land_ones, !N.shiftr_div_pow2.
+  set (B := 2 ^ 64) in *.
+  assert (HBB : 2 ^ 128 = B * B) by (unfold B; rewrite <- pow2_add; reflexivity).
+  assert (HB : 0 < B) by apply pow2_pos.
+  pose proof (N.div_mod' a B) as Ea. pose proof (N.mod_lt a B ltac:(lia)) as Ha0.
+  pose proof (N.div_mod' b B) as Eb. pose proof (N.mod_lt b B ltac:(lia)) as Hb0.
+  set (a0 := a mod B) in *. set (a1 := a / B) in *.
+  set (b0 := b mod B) in *. set (b1 := b / B) in *.
+  assert (Ha1 : a1 < B) by nia. assert (Hb1 : b1 < B) by nia.
+  assert (Hmul : forall x y, x < B -> y < B -> x * y < 2 ^ 128) by (intros; rewrite HBB; nia).
+  rewrite !wrap_small by (apply Hmul; assumption).
+  set (p0 := a0 * b0). set (p1 := a1 * b0). set (p2 := a0 * b1). set (p3 := a1 * b1).
+  assert (Hshl : forall p, shlw 128 p 64 = B * (p mod B)).
+  { intros p. unfold shlw. rewrite wrap_mod, N.shiftl_mul_pow2. fold B. rewrite HBB.
+    rewrite (N.mul_comm p B). rewrite N.mul_mod_distr_l by lia. reflexivity. }
+  rewrite !Hshl.
+  destruct (cadd 128 p0 (B * (p1 mod B)) (B * (p2 mod B))) as [p0' c] eqn:Ec.
+  pose proof (N.mod_lt p1 B ltac:(lia)) as Hp1. pose proof (N.mod_lt p2 B ltac:(lia)) as Hp2.
+  pose proof (N.div_mod' p1 B) as Ep1. pose proof (N.div_mod' p2 B) as Ep2.
+  apply cadd_spec in Ec; [|apply Hmul; assumption|rewrite HBB; nia|rewrite HBB; nia].
+  destruct Ec as [Ec Hp0'].
+  assert (Eab : a * b = 2 ^ 128 * (p3 + p1 / B + p2 / B + c) + p0').
+  { rewrite Ea, Eb. fold a0 a1 b0 b1.
+    transitivity (p0 + B * p1 + B * p2 + B * B * p3); [unfold p0, p1, p2, p3; ring|].
+    rewrite Ep1 at 1. rewrite Ep2 at 1. rewrite HBB in *. 
+    set (q1 := p1 / B) in *. set (q2 := p2 / B) in *. set (r1 := p1 mod B) in *. set (r2 := p2 mod B) in *.
+    clearbody p0 p1 p2 p3 q1 q2 r1 r2. clear -Ec. nia. }
+  rewrite wrap_mod.
+  f_equal.
+  - apply (N.mod_unique _ _ (p3 + p1 / B + p2 / B + c)); assumption.
+  - apply (N.div_unique _ _ _ p0'); assumption.
+Qed.
+
+Lemma wmul_spec w a b lo hi :
+  0 < w -> a < 2 ^ w -> b < 2 ^ w -> wmul w a b = (lo, hi) ->
+  lo + 2 ^ w * hi = a * b /\ lo < 2 ^ w /\ hi < 2 ^ w.
+Proof.
+  intros Hw Ha Hb E. unfold wmul in E.
+  destruct (N.eqb_spec w 128) as [->|Hne].
+  - rewrite wmul128_eq in E by assumption. apply wmul_gen_spec; assumption.
+  - apply wmul_gen_spec; assumption.
+Qed.
+
+Definition digits_of (w R : N) (rhs : N -> N) : Prop := forall i, rhs i = (R / 2 ^ (w * i)) mod 2 ^ w.
+
+(* ------------------------------------------------------------------ windows of words *)
+
+(* the value of the n words starting at word p *)
+Definition win (w : N) (d : list N) (p n : N) : N := (raw w d / 2 ^ (w * p)) mod 2 ^ (w * n).
+
+(* digits j .. j+n-1 of a number *)
+Definition digs (w R j n : N) : N := (R / 2 ^ (w * j)) mod 2 ^ (w * n).
+
+Lemma digs_0 w R j : digs w R j 0 = 0.
+Proof. unfold digs. rewrite N.mul_0_r. cbn. apply N.mod_1_r. Qed.
+
+Lemma digs_succ w R j n : digs w R j (n + 1) = digs w R j 1 + 2 ^ w * digs w R (j + 1) n.
+Proof.
+  unfold digs. rewrite N.mul_1_r.
+  replace (w * (n + 1)) with (w + w * n) by lia. rewrite pow2_add.
+  rewrite mod_split by apply pow2_pos.
+  rewrite N.div_div by apply pow2_ne0. rewrite <- pow2_add.
+  replace (w * j + w) with (w * (j + 1)) by lia. reflexivity.
+Qed.
+
+Lemma win_digs w d p n : win w d p n = digs w (raw w d) p n.
+Proof. reflexivity. Qed.
+
+Lemma win_0 w d p : win w d p 0 = 0.
+Proof. apply digs_0. Qed.
+
+Lemma win_succ w d p n : 0 < w -> words_ok w d -> win w d p (n + 1) = getw d p + 2 ^ w * win w d (p + 1) n.
+Proof.
+  intros Hw Hd. rewrite !win_digs, digs_succ. f_equal.
+  unfold digs. rewrite N.mul_1_r. symmetry. apply getw_raw; assumption.
+Qed.
+
+Lemma win_ext w d1 d2 p n :
+  0 < w -> words_ok w d1 -> words_ok w d2 ->
+  (forall k, p <= k -> k < p + N.of_nat n -> getw d1 k = getw d2 k) ->
+  win w d1 p (N.of_nat n) = win w d2 p (N.of_nat n).
+Proof.
+  intros Hw H1 H2. revert p. induction n as [|n IH]; intros p H.
+  - change (N.of_nat 0) with 0. rewrite !win_0. reflexivity.
+  - replace (N.of_nat (S n)) with (N.of_nat n + 1) by lia.
+    rewrite !win_succ by assumption. rewrite (H p) by lia. rewrite (IH (p + 1)); [reflexivity|].
+    intros k Hk1 Hk2. apply H; lia.
+Qed.
+
+Lemma win_lt w d p n : win w d p n < 2 ^ (w * n).
+Proof. unfold win. apply N.mod_lt, pow2_ne0. Qed.
+
+Lemma win_low w d n : win w d 0 n = raw w d mod 2 ^ (w * n).
+Proof. unfold win. rewrite N.mul_0_r. change (2 ^ 0) with 1. rewrite N.div_1_r. reflexivity. Qed.
+
+(* ------------------------------------------------------------------ one row *)
+
+Lemma wadd_ok P w a b : a + b < 2 ^ w -> wadd P w a b = Ok (a + b).
+Proof. intros H. unfold wadd. rewrite pow2_eq. apply N.ltb_lt in H. rewrite H. reflexivity. Qed.
+
+(* the carry never overflows a word *)
+Lemma carry_bound B a b x c y c1 lo hi :
+  a < B -> b < B -> x < B -> c < B -> y + B * c1 = x + lo + c -> lo + B * hi = a * b -> c1 + hi < B.
+Proof.
+  intros Ha Hb Hx Hc E1 E2.
+  assert (y + B * (c1 + hi) = x + a * b + c) as E by lia.
+  assert (a * b <= (B - 1) * (B - 1)) as Hab by (apply N.mul_le_mono; lia).
+  assert (B * (c1 + hi) < B * B) as H by nia.
+  apply N.mul_lt_mono_pos_l in H; lia.
+Qed.
+
+Lemma mul_row_spec P w a rhs R res i j n carry :
+  0 < w -> a < 2 ^ w -> words_ok w res -> digits_of w R rhs -> carry < 2 ^ w ->
+  i + j + N.of_nat n <= lenw res ->
+  exists res', mul_row P w a rhs res i j n carry = Ok res' /\ words_ok w res' /\ lenw res' = lenw res /\
+    (forall k, k < i + j -> getw res' k = getw res k) /\
+    (forall k, i + j + N.of_nat n <= k -> getw res' k = getw res k) /\
+    (raw w res' / 2 ^ (w * (i + j))) mod 2 ^ (w * N.of_nat n)
+      = ((raw w res / 2 ^ (w * (i + j))) mod 2 ^ (w * N.of_nat n)
+         + a * ((R / 2 ^ (w * j)) mod 2 ^ (w * N.of_nat n)) + carry) mod 2 ^ (w * N.of_nat n).
+Proof.
+  intros Hw Ha Hres HR. revert j res carry Hres.
+  change (forall j res carry, words_ok w res -> carry < 2 ^ w -> i + j + N.of_nat n <= lenw res ->
+    exists res', mul_row P w a rhs res i j n carry = Ok res' /\ words_ok w res' /\ lenw res' = lenw res /\
+    (forall k, k < i + j -> getw res' k = getw res k) /\
+    (forall k, i + j + N.of_nat n <= k -> getw res' k = getw res k) /\
+    win w res' (i + j) (N.of_nat n)
+      = (win w res (i + j) (N.of_nat n) + a * digs w R j (N.of_nat n) + carry) mod 2 ^ (w * N.of_nat n)).
+  induction n as [|n IH]; intros j res carry Hres Hc Hlen.
+  - exists res. cbn [mul_row]. repeat split; try assumption; try reflexivity.
+    change (N.of_nat 0) with 0. rewrite !win_0, N.mul_0_r. change (2 ^ 0) with 1. rewrite N.mod_1_r. reflexivity.
+  - cbn [mul_row].
+    destruct (wmul w a (rhs j)) as [lo hi] eqn:Em.
+    assert (Hb : rhs j < 2 ^ w) by (rewrite HR; apply N.mod_lt, pow2_ne0).
+    destruct (wmul_spec w a (rhs j) lo hi Hw Ha Hb Em) as (Elo & Hlo & Hhi).
+    rewrite geto_ok by lia. cbn [bind].
+    pose proof (getw_ok w res (i + j) Hres) as Hx.
+    destruct (cadd w (getw res (i + j)) lo carry) as [y c1] eqn:Ec.
+    destruct (cadd_spec w _ _ _ _ _ Hx Hlo Hc Ec) as (Ey & Hy).
+    rewrite seto_ok by lia. cbn [bind].
+    assert (Hcar : c1 + hi < 2 ^ w) by (apply (carry_bound (2 ^ w) a (rhs j) (getw res (i + j)) carry y c1 lo hi); assumption).
+    rewrite wadd_ok by assumption. cbn [bind].
+    set (res1 := setw res (i + j) y).
+    assert (Hres1 : words_ok w res1) by (apply words_ok_setw; assumption).
+    assert (Hl1 : lenw res1 = lenw res) by apply lenw_setw.
+    destruct (IH (j + 1) res1 (c1 + hi) Hres1 Hcar ltac:(lia)) as (res' & Erun & Hok & Hl & Hlow & Hhigh & Hwin).
+    exists res'. split; [assumption|]. split; [assumption|]. split; [lia|].
+    assert (Hg1 : forall k, k <> i + j -> getw res1 k = getw res k).
+    { intros k Hk. unfold res1. rewrite getw_setw.
+      destruct (N.eqb_spec (i + j) k); [lia|reflexivity]. }
+    assert (Hgy : getw res1 (i + j) = y).
+    { unfold res1. rewrite getw_setw, N.eqb_refl.
+      assert (i + j <? lenw res = true) as -> by (apply N.ltb_lt; lia). reflexivity. }
+    split; [|split].
+    + intros k Hk. rewrite Hlow by lia. apply Hg1. lia.
+    + intros k Hk. rewrite Hhigh by lia. apply Hg1. lia.
+    + replace (N.of_nat (S n)) with (N.of_nat n + 1) by lia.
+      rewrite !win_succ by assumption. rewrite digs_succ.
+      replace (i + j + 1) with (i + (j + 1)) by lia.
+      rewrite Hwin. rewrite (Hlow (i + j)) by lia. rewrite Hgy.
+      rewrite (win_ext w res1 res (i + (j + 1)) n Hw Hres1 Hres) by (intros k Hk1 Hk2; apply Hg1; lia).
+      assert (Hd1 : digs w R j 1 = rhs j) by (rewrite HR; unfold digs; rewrite N.mul_1_r; reflexivity).
+      rewrite Hd1.
+      set (W := win w res (i + (j + 1)) (N.of_nat n)).
+      set (D := digs w R (j + 1) (N.of_nat n)).
+      replace (w * (N.of_nat n + 1)) with (w + w * N.of_nat n) by lia. rewrite pow2_add.
+      replace (getw res (i + j) + 2 ^ w * W + a * (rhs j + 2 ^ w * D) + carry)
+        with (y + 2 ^ w * (W + a * D + (c1 + hi))).
+      * rewrite concat_mod by (assumption || apply pow2_pos). reflexivity.
+      * clearbody W D. clear -Ey Elo. nia.
+Qed.
+
+(* ------------------------------------------------------------------ all rows *)
+
+Lemma mul_rows_inv P w a rhs R m len t :
+  0 < w -> words_ok w a -> digits_of w R rhs -> len <= lenw a -> len <= m -> N.of_nat t <= len ->
+  exists res,
+    fold_left (fun acc i =>
+                 let! res := acc in
+                 let! ai := geto a i in
+                 mul_row P w ai rhs res i 0 (N.to_nat (len - i)) 0)
+              (nrange (N.of_nat t)) (Ok (zerosw m)) = Ok res /\
+    words_ok w res /\ lenw res = m /\
+    raw w res mod 2 ^ (w * len) = (raw w a mod 2 ^ (w * N.of_nat t) * R) mod 2 ^ (w * len) /\
+    (forall k, len <= k -> getw res k = 0).
+Proof.
+  intros Hw Ha HR Hla Hlm. induction t as [|t IH]; intros Ht.
+  - exists (zerosw m). change (N.of_nat 0) with 0. rewrite nrange_0. cbn [fold_left].
+    split; [reflexivity|]. split; [apply words_ok_zerosw|]. split; [apply lenw_zerosw|]. split.
+    + rewrite raw_zerosw, N.mul_0_r. change (2 ^ 0) with 1. rewrite N.mod_1_r, N.mul_0_l.
+      rewrite N.mod_0_l by apply pow2_ne0. reflexivity.
+    + intros k _. apply getw_zerosw.
+  - destruct IH as (res & Erun & Hres & Hl & Hinv & Hz); [lia|].
+    replace (N.of_nat (S t)) with (N.of_nat t + 1) in * by lia.
+    remember (N.of_nat t) as T eqn:ET.
+    assert (HTa : T < lenw a) by (clear -Hla Ht; lia).
+    assert (HTr : T + 0 + N.of_nat (N.to_nat (len - T)) <= lenw res) by (clear -Ht Hlm Hl; lia).
+    rewrite nrange_succ, fold_left_app, Erun. cbn [fold_left bind].
+    rewrite (geto_ok a T HTa). cbn [bind].
+    pose proof (getw_ok w a T Ha) as Hai.
+    destruct (mul_row_spec P w (getw a T) rhs R res T 0 (N.to_nat (len - T)) 0 Hw Hai Hres HR
+                (pow2_pos w) HTr) as (res' & Erow & Hres' & Hl' & Hlow & Hhigh & Hwin).
+    exists res'. split; [assumption|]. split; [assumption|]. split; [congruence|]. split.
+    + rewrite N2Nat.id, N.add_0_r, N.mul_0_r in Hwin. change (2 ^ 0) with 1 in Hwin.
+      rewrite N.div_1_r, N.add_0_r in Hwin.
+      assert (EA : raw w a mod 2 ^ (w * (T + 1)) = raw w a mod 2 ^ (w * T) + 2 ^ (w * T) * getw a T).
+      { replace (w * (T + 1)) with (w * T + w) by (clear; lia). rewrite pow2_add.
+        rewrite (mod_split (raw w a) _ _ (pow2_pos _) (pow2_pos w)).
+        rewrite <- (getw_raw w Hw a T Ha). reflexivity. }
+      rewrite EA. clear EA.
+      assert (Elow : raw w res' mod 2 ^ (w * T) = raw w res mod 2 ^ (w * T)).
+      { rewrite <- !win_low. rewrite ET. apply win_ext; try assumption.
+        intros k _ Hk. apply Hlow. clear -Hk ET. lia. }
+      replace (w * len) with (w * T + w * (len - T)) in * by (clear -Ht; lia).
+      rewrite pow2_add in *.
+      set (Bt := 2 ^ (w * T)) in *. set (C := 2 ^ (w * (len - T))) in *.
+      assert (HBt : 0 < Bt) by apply pow2_pos. assert (HC : 0 < C) by apply pow2_pos.
+      rewrite (mod_split (raw w res') Bt C HBt HC). rewrite Elow, Hwin.
+      rewrite <- concat_mod by (try assumption; apply N.mod_lt; lia).
+      rewrite !N.mul_add_distr_l, N.add_assoc.
+      rewrite <- (mod_split (raw w res) Bt C HBt HC). rewrite Hinv.
+      rewrite row_acc by (reflexivity || assumption).
+      f_equal.
+      clear. lia.
+    + intros k Hk. rewrite Hhigh by (clear -Hk Ht; lia). apply Hz. assumption.
+Qed.
+
+Lemma mul_rows_spec_gen P w a rhs R m len :
+  0 < w -> words_ok w a -> digits_of w R rhs -> len <= lenw a -> len <= m ->
+  exists res, mul_rows P w a rhs (zerosw m) len = Ok res /\ words_ok w res /\ lenw res = m /\
+    raw w res mod 2 ^ (w * len) = (raw w a mod 2 ^ (w * len) * R) mod 2 ^ (w * len) /\
+    (forall k, len <= k -> getw res k = 0).
+Proof.
+  intros Hw Ha HR Hla Hlm.
+  destruct (mul_rows_inv P w a rhs R m len (N.to_nat len) Hw Ha HR Hla Hlm ltac:(lia)) as (res & H).
+  rewrite N2Nat.id in H. exists res. exact H.
+Qed.
+
+Lemma mul_rows_spec P w a rhs R len :
+  0 < w -> words_ok w a -> digits_of w R rhs -> len <= lenw a ->
+  exists res, mul_rows P w a rhs (zerosw (lenw a)) len = Ok res /\ words_ok w res /\ lenw res = lenw a /\
+    raw w res mod 2 ^ (w * len) = (raw w a mod 2 ^ (w * len) * R) mod 2 ^ (w * len) /\
+    (forall k, len <= k -> getw res k = 0).
+Proof. intros Hw Ha HR Hla. apply mul_rows_spec_gen; assumption. Qed.
